@@ -45,8 +45,10 @@ class SpinError(Exception):
 class VLoop(asyncio.SelectorEventLoop):
     def __init__(self, start=1_000_000.0):
         super().__init__(selector=_FakeSelector())
-        self._vt = start
-        self._clock_resolution = 1e-9
+        # the clock is kept in integer microseconds so that repeated tick arithmetic cannot drift;
+        # timers within 1 us of "now" count as due (asyncio's own rule uses _clock_resolution)
+        self._us = int(round(start * 1e6))
+        self._clock_resolution = 1e-6
         self.errors = []
         self.set_exception_handler(self._on_err)
 
@@ -54,7 +56,19 @@ class VLoop(asyncio.SelectorEventLoop):
         self.errors.append(ctx)
 
     def time(self):
-        return self._vt
+        return self._us / 1e6
+
+    @property
+    def _vt(self):
+        return self._us / 1e6
+
+    @_vt.setter
+    def _vt(self, t):
+        self._us = int(round(t * 1e6))
+
+    def wall(self):
+        """value for time.time(): nudged by half a microsecond so int(time.time()*1000) is exact"""
+        return (self._us + 0.5) / 1e6
 
     # -- stepping primitives (the loop is never "running forever"; we drive _run_once)
     def _has_ready(self):
@@ -74,7 +88,7 @@ class VLoop(asyncio.SelectorEventLoop):
         while True:
             if not self._ready:
                 nt = self._next_timer()
-                if not (timers_now and nt is not None and nt <= self._vt + 1e-12):
+                if not (timers_now and nt is not None and nt <= self._vt + 1e-6):
                     return n
             if not timers_now:
                 # run only the ready queue: hide the timers due now
@@ -111,7 +125,7 @@ class VLoop(asyncio.SelectorEventLoop):
         self.settle(budget)
         while True:
             nt = self._next_timer()
-            if nt is None or nt > t + 1e-12:
+            if nt is None or nt > t + 1e-6:
                 break
             if nt > self._vt:
                 self._vt = nt
@@ -139,7 +153,7 @@ class Session:
         loop = self.loop
         asyncio.set_event_loop(loop)
         self._real_time = _time.time
-        _time.time = lambda: loop._vt
+        _time.time = loop.wall
         # mark loop as running for get_running_loop()
         loop._check_closed()
         loop._thread_id = __import__('threading').get_ident()
